@@ -175,3 +175,14 @@ Proof.
   - cbn. discriminate.
   - cbn. discriminate.
 Qed.
+
+From RW Require Gen.Source Conc.HookTie.
+
+(* translator tie: the schedule points that cut the code into the model's atomic steps are
+   the verifPoint call sites of /repo's current source (regenerated into Gen/Source.v on
+   every run), each in the function the model attributes it to *)
+Theorem C14_schedule_points_tie :
+  RW.Gen.Source.hook_points =
+  List.map (fun p => (RW.Conc.HookTie.s2n (fst p), RW.Conc.HookTie.s2n (snd p))) RW.Conc.HookTie.model_points.
+Proof. exact RW.Conc.HookTie.hook_points_tie. Qed.
+Print Assumptions C14_schedule_points_tie.
